@@ -18,7 +18,7 @@
 use crate::hist::{Hist, Step, World, generate};
 use crate::lsp::{Ls, LsErr};
 use serde_json::{Value, json};
-use std::collections::BTreeMap;
+use std::collections::{BTreeMap, BTreeSet};
 use std::path::{Path, PathBuf};
 use vcore::util::Scratch;
 use vcore::{CaseCfg, Ctx, Draw, Outcome, hash_str};
@@ -68,6 +68,14 @@ fn write_disk(root: &Path, toml: &str, disk: &BTreeMap<String, String>) {
 struct Env {
     bin: PathBuf,
     cache: PathBuf,
+    /// the server starts a background run on didClose (probed once per run)
+    close_starts_bg: bool,
+}
+
+fn spawn(env: &Env, root: &Path) -> Result<Ls, LsErr> {
+    let mut ls = Ls::spawn(&env.bin, root, &env.cache)?;
+    ls.close_starts_bg = env.close_starts_bg;
+    Ok(ls)
 }
 
 /// Versions per path: increasing over the whole session, also across close/reopen.
@@ -93,7 +101,7 @@ fn fresh_truth(
 ) -> Result<BTreeMap<String, Vec<String>>, LsErr> {
     let _ = std::fs::remove_dir_all(root);
     write_disk(root, toml, &w.disk);
-    let mut ls = Ls::spawn(&env.bin, root, &env.cache)?;
+    let mut ls = spawn(env, root)?;
     let mut ver = Versions::default();
     for (f, t) in &w.open {
         ls.did_open(&uri(root, f), t, ver.next(f))?;
@@ -169,6 +177,15 @@ struct Report {
     compared: u32,
     stale_views: u32,
     checks: u32,
+    tolerated_name_variance: u32,
+}
+
+struct Mism {
+    step: usize,
+    file: String,
+    what: &'static str,
+    got: Vec<String>,
+    want: Vec<String>,
 }
 
 enum Verdict {
@@ -182,24 +199,103 @@ enum Verdict {
         long_lived: bool,
         err: String,
     },
+    /// the server stopped answering: inconclusive, never a violation
+    Hang(String),
+    /// the server started background work the protocol model does not predict
+    OffModel,
 }
 
+/// Multiset difference, for the failure message.
 fn diff_lines(a: &[String], b: &[String]) -> String {
     let mut s = String::new();
+    let mut rest: Vec<&String> = b.iter().collect();
     for x in a {
-        if !b.contains(x) {
+        if let Some(k) = rest.iter().position(|y| *y == x) {
+            rest.remove(k);
+        } else {
             s.push_str(&format!("    only long-lived: {x}\n"));
         }
     }
-    for x in b {
-        if !a.contains(x) {
-            s.push_str(&format!("    only fresh:      {x}\n"));
-        }
-    }
-    if s.is_empty() {
-        s.push_str("    (same set, different multiplicity)\n");
+    for x in rest {
+        s.push_str(&format!("    only fresh:      {x}\n"));
     }
     s
+}
+
+fn words_of(text: &str, into: &mut BTreeSet<String>) {
+    let mut w = String::new();
+    for c in text.chars().chain(std::iter::once(' ')) {
+        if c.is_ascii_alphanumeric() || c == '_' {
+            w.push(c);
+        } else if !w.is_empty() {
+            into.insert(std::mem::take(&mut w));
+        }
+    }
+}
+
+/// LISTED ROOT CAUSE "dropped-name-still-known": `symbol_table::drop` empties
+/// but keeps the `name_table` entry of a dropped declaration, and `resolve`
+/// asks `name_table.contains_key(name)` to decide between "unknown name ->
+/// NotFound(name)" and "never seen -> treat as the namespace of another
+/// project and go on to the next path segment".  For `Pk::W` with `Pk` gone a
+/// server that once knew `Pk` says `"Pk" is undefined` twice, a fresh one
+/// `"Pk" is undefined` + `"W" is undefined` (same ranges, same code); likewise
+/// `"Pk" doesn't have member "En"` (En dropped) against `.. member "V"` for
+/// `Pk::En::V`.  True iff `got` and `want` differ only in that way: equal after
+/// masking the quoted names in undefined_identifier / unknown_member messages,
+/// and every name only the long-lived server mentions occurs in a text that
+/// server was given earlier.
+fn differs_only_by_formerly_known_names(got: &[String], want: &[String], seen: &BTreeSet<String>) -> bool {
+    // (everything up to the message, message with quoted names masked, quoted names)
+    fn split(s: &str) -> (String, Vec<String>) {
+        for code in [" code=undefined_identifier ", " code=unknown_member "] {
+            if let Some((head, msg)) = s.split_once(code) {
+                let mut masked = String::new();
+                let mut names = vec![];
+                for (k, part) in msg.split('"').enumerate() {
+                    if k % 2 == 1 {
+                        names.push(part.to_string());
+                        masked.push_str("\"?\"");
+                    } else {
+                        masked.push_str(part);
+                    }
+                }
+                return (format!("{head}{code}{masked}"), names);
+            }
+        }
+        (s.to_string(), vec![])
+    }
+    let mut a: Vec<String> = got.iter().map(|x| split(x).0).collect();
+    let mut b: Vec<String> = want.iter().map(|x| split(x).0).collect();
+    a.sort();
+    b.sort();
+    if a != b {
+        return false;
+    }
+    let mut rest: Vec<&String> = want.iter().collect();
+    let mut odd: Vec<&String> = vec![];
+    for x in got {
+        if let Some(k) = rest.iter().position(|y| *y == x) {
+            rest.remove(k);
+        } else {
+            odd.push(x);
+        }
+    }
+    // every name only the long-lived server mentions must be one it knew earlier
+    for x in odd {
+        let (key, names) = split(x);
+        let fresh_names: Vec<String> = rest
+            .iter()
+            .filter(|y| split(y).0 == key)
+            .flat_map(|y| split(y).1)
+            .collect();
+        for n in names {
+            if !fresh_names.contains(&n) && !seen.contains(&n) {
+                return false;
+            }
+        }
+    }
+    true
 }
 
 fn execute(env: &Env, scratch: &Scratch, h: &Hist) -> Verdict {
@@ -208,20 +304,27 @@ fn execute(env: &Env, scratch: &Scratch, h: &Hist) -> Verdict {
     write_disk(&lroot, &h.toml, &h.files);
     let mut w = World {
         disk: h.files.clone(),
+        close_forgets: env.close_starts_bg,
         ..Default::default()
     };
     let mut ver = Versions::default();
     let mut rep = Report::default();
+    let mut seen: BTreeSet<String> = BTreeSet::new();
+    for t in h.files.values() {
+        words_of(t, &mut seen);
+    }
     let gone = |e: LsErr, long_lived: bool| -> Verdict {
         match e {
-            LsErr::Timeout(m) => inconclusive(&m),
+            LsErr::Timeout(m) => Verdict::Hang(m),
             LsErr::Exited(m) | LsErr::ThreadDead(m) => Verdict::ServerGone { long_lived, err: m },
         }
     };
-    let mut ls = match Ls::spawn(&env.bin, &lroot, &env.cache) {
+    let mut ls = match spawn(env, &lroot) {
         Ok(l) => l,
         Err(e) => return gone(e, true),
     };
+    // mismatches explained by a listed root cause: (signature, text)
+    let mut listed: Vec<(String, String)> = vec![];
     for (i, s) in h.steps.iter().enumerate() {
         let touched = match play(&mut ls, &lroot, &mut w, &mut ver, s) {
             Ok(t) => t,
@@ -230,7 +333,7 @@ fn execute(env: &Env, scratch: &Scratch, h: &Hist) -> Verdict {
                 w.apply(s);
                 return match fresh_truth(env, &froot, &h.toml, &w, &BTreeMap::new()) {
                     Ok(_) => gone(e, true),
-                    Err(LsErr::Timeout(m)) => inconclusive(&m),
+                    Err(LsErr::Timeout(m)) => Verdict::Hang(m),
                     Err(_) => Verdict::ServerGone {
                         long_lived: false,
                         err: "both servers stop on these buffers".into(),
@@ -238,6 +341,10 @@ fn execute(env: &Env, scratch: &Scratch, h: &Hist) -> Verdict {
                 };
             }
         };
+        if let Step::Change { text, .. } = s {
+            // names the server knows from now on (used one check later at the earliest)
+            words_of(text, &mut seen);
+        }
         if !h.checks.contains(&i) || w.open.is_empty() {
             continue;
         }
@@ -246,7 +353,7 @@ fn execute(env: &Env, scratch: &Scratch, h: &Hist) -> Verdict {
             Ok(t) => t,
             Err(e) => return gone(e, false),
         };
-        let mut mism: Vec<(String, &'static str, Vec<String>, Vec<String>)> = vec![];
+        let mut mism: Vec<Mism> = vec![];
         // (1) what the step itself made the server publish
         if let Some(f) = &touched
             && w.open.contains_key(f)
@@ -255,7 +362,13 @@ fn execute(env: &Env, scratch: &Scratch, h: &Hist) -> Verdict {
             let got = normalise(&p.diags, &lroot);
             rep.compared += 1;
             if got != truth[f] {
-                mism.push((f.clone(), "published for this step", got, truth[f].clone()));
+                mism.push(Mism {
+                    step: i,
+                    file: f.clone(),
+                    what: "published for this step",
+                    got,
+                    want: truth[f].clone(),
+                });
             }
         }
         // (2) every open document, analysed again
@@ -280,7 +393,13 @@ fn execute(env: &Env, scratch: &Scratch, h: &Hist) -> Verdict {
             let got = normalise(&ls.published[&u].diags, &lroot);
             rep.compared += 1;
             if got != truth[f] {
-                mism.push((f.clone(), "published when analysed again (no-op didChange)", got, truth[f].clone()));
+                mism.push(Mism {
+                    step: i,
+                    file: f.clone(),
+                    what: "published when analysed again (no-op didChange)",
+                    got,
+                    want: truth[f].clone(),
+                });
             }
         }
         if ls.nonempty_publishes > 0 || truth.values().any(|v| !v.is_empty()) {
@@ -289,68 +408,102 @@ fn execute(env: &Env, scratch: &Scratch, h: &Hist) -> Verdict {
         if mism.is_empty() {
             continue;
         }
+        // a background run the protocol model did not predict makes the server
+        // hold back diagnostics: not a case this check can judge
+        for _ in 0..2 {
+            if let Err(e) = ls.barrier() {
+                return gone(e, true);
+            }
+        }
+        if ls.unexpected_bg {
+            return Verdict::OffModel;
+        }
         // ---- attribute: does a listed root cause explain all of it?
         let div = w.divergence();
-        let mut signature = "diagnostics-differ-from-fresh-server".to_string();
-        let mut explained = false;
-        if !div.is_empty() {
+        let mut signature: Option<String> = None;
+        if mism
+            .iter()
+            .all(|m| differs_only_by_formerly_known_names(&m.got, &m.want, &seen))
+        {
+            signature = Some("dropped-name-still-known".into());
+        } else if !div.is_empty() {
+            // a fresh server made to hold, for closed/removed documents, the
+            // text the long-lived one was last told
             let forced: BTreeMap<String, String> = div.iter().map(|(p, (t, _))| (p.clone(), t.clone())).collect();
             match fresh_truth(env, &scratch.join("G"), &h.toml, &w, &forced) {
                 Ok(t2) => {
-                    // the long-lived server's answers after re-analysis are the last entries per file
-                    let mut all_same = true;
-                    for (f, _) in &open {
+                    let same = open.iter().all(|(f, _)| {
                         let got = normalise(&ls.published[&uri(&lroot, f)].diags, &lroot);
-                        if got != t2[f] {
-                            all_same = false;
-                        }
-                    }
-                    if all_same {
-                        explained = true;
+                        got == t2[f] || differs_only_by_formerly_known_names(&got, &t2[f], &seen)
+                    });
+                    if same {
                         let mut causes: Vec<&str> = div.values().map(|(_, c)| *c).collect();
                         causes.sort();
                         causes.dedup();
-                        signature = causes.join("+");
+                        signature = Some(causes.join("+"));
                     }
                 }
-                Err(LsErr::Timeout(m)) => inconclusive(&m),
+                Err(LsErr::Timeout(m)) => return Verdict::Hang(m),
                 Err(_) => {}
             }
         }
         let mut message = format!(
-            "after step {i} ({}) the long-lived server and a fresh server disagree{}:\n",
-            s.kind(),
-            if explained {
-                " — a fresh server made to hold the texts the long-lived one was last told for closed/removed documents agrees with the long-lived one"
-            } else {
-                ""
-            }
+            "after step {i} ({}) the long-lived server and a fresh server disagree:\n",
+            s.kind()
         );
-        for (f, what, got, want) in &mism {
-            message.push_str(&format!("  {f} — {what}:\n{}", diff_lines(got, want)));
+        for m in &mism {
+            message.push_str(&format!("  {} — {}:\n{}", m.file, m.what, diff_lines(&m.got, &m.want)));
         }
         if !div.is_empty() {
-            message.push_str("  documents for which the server still holds another text than editor/disk:\n");
+            message.push_str("  documents for which the server was last told another text than editor/disk now hold:\n");
             for (p, (_, c)) in &div {
                 message.push_str(&format!("    {p}: {c}\n"));
             }
         }
-        message.push_str("history:\n");
-        message.push_str(&h.pretty());
-        return Verdict::Mismatch {
-            signature,
-            message,
-            detail: json!({
-                "failed_after_step": i,
-                "open_buffers": w.open,
-                "disk": w.disk,
-                "mismatches": mism.iter().map(|(f, what, got, want)| json!({"file": f, "what": what, "long_lived": got, "fresh": want})).collect::<Vec<_>>(),
-                "trace_tail": ls.trace.iter().rev().take(40).rev().collect::<Vec<_>>(),
-            }),
-        };
+        match signature {
+            Some(sig) => {
+                if sig == "dropped-name-still-known" && !h.flags.allow_known {
+                    // listed message variance: demonstrated by its reproducer and by the
+                    // histories that may reach listed causes; elsewhere counted, not reported,
+                    // so that the rest of the history is still compared and counts as a case
+                    rep.tolerated_name_variance += 1;
+                } else {
+                    listed.push((sig, message));
+                }
+                continue;
+            }
+            None => {
+                message.push_str("history:\n");
+                message.push_str(&h.pretty());
+                return Verdict::Mismatch {
+                    signature: "diagnostics-differ-from-fresh-server".into(),
+                    message,
+                    detail: json!({
+                        "failed_after_step": i,
+                        "open_buffers": w.open,
+                        "disk": w.disk,
+                        "mismatches": mism.iter().map(|m| json!({"step": m.step, "file": m.file, "what": m.what, "long_lived": m.got, "fresh": m.want})).collect::<Vec<_>>(),
+                        "trace_tail": ls.trace.iter().rev().take(40).rev().collect::<Vec<_>>(),
+                    }),
+                };
+            }
+        }
     }
     if ls.nonempty_publishes > 0 {
         rep.diag_seen = true;
+    }
+    if let Some((sig, _)) = listed.first() {
+        let mut message = String::new();
+        for (s2, m) in &listed {
+            message.push_str(&format!("[{s2}] {m}"));
+        }
+        message.push_str("history:\n");
+        message.push_str(&h.pretty());
+        return Verdict::Mismatch {
+            signature: sig.clone(),
+            message,
+            detail: json!({"listed_root_causes": listed.iter().map(|x| x.0.clone()).collect::<Vec<_>>()}),
+        };
     }
     Verdict::Ok(rep)
 }
@@ -400,6 +553,13 @@ fn outcome_of(ctx: &Ctx, h: &Hist, v: Verdict) -> Outcome {
                 "observed_not_asserted:open_documents_showing_outdated_diagnostics_until_touched",
                 rep.stale_views as u64,
             );
+            ctx.note_add(
+                "oracle_points_equal_up_to_listed_message_variance(dropped-name-still-known)",
+                rep.tolerated_name_variance as u64,
+            );
+            if rep.tolerated_name_variance > 0 {
+                classes.push("listed_message_variance_tolerated".into());
+            }
             ctx.note_add("steps_excluded_to_stay_clear_of_listed_root_causes", h.flags.excluded_steps as u64);
             let text = serde_json::to_string(&h.to_json()).unwrap();
             Outcome::pass(
@@ -413,7 +573,12 @@ fn outcome_of(ctx: &Ctx, h: &Hist, v: Verdict) -> Outcome {
             signature,
             message,
             detail,
-        } => Outcome::fail(signature, message, json!({"history": h.to_json(), "detail": detail})),
+        } => {
+            if std::env::var("C07_TRACE").is_ok() {
+                eprintln!("--- [{signature}]\n{message}");
+            }
+            Outcome::fail(signature, message, json!({"history": h.to_json(), "detail": detail}))
+        }
         Verdict::ServerGone { long_lived: true, err } => Outcome::fail(
             "server-stops-after-history",
             format!(
@@ -422,6 +587,15 @@ fn outcome_of(ctx: &Ctx, h: &Hist, v: Verdict) -> Outcome {
             ),
             json!({"history": h.to_json()}),
         ),
+        Verdict::OffModel => Outcome::skip("the server started a background run the protocol model does not predict"),
+        Verdict::Hang(m) => {
+            let dir = format!("{}/replays/C07", vcore::run::out_root());
+            let _ = std::fs::create_dir_all(&dir);
+            let text = serde_json::to_string_pretty(&json!({"property": "C07", "sub": "history", "payload": {"history": h.to_json()}, "note": m})).unwrap();
+            let p = format!("{dir}/hang-{:016x}.json", hash_str(&text));
+            let _ = std::fs::write(&p, text);
+            inconclusive(&format!("{m} (history saved: {p})"))
+        }
         Verdict::ServerGone { long_lived: false, err } => {
             ctx.note_add("skipped_server_crash_independent_of_history", 1);
             let _ = err;
@@ -431,14 +605,30 @@ fn outcome_of(ctx: &Ctx, h: &Hist, v: Verdict) -> Outcome {
 }
 
 pub fn run(ctx: &Ctx) {
-    let env = Env {
+    let mut env = Env {
         bin: vcore::util::repo_bin("veryl-ls"),
         cache: PathBuf::from(format!("{}/c07-cache-{}", vcore::util::work_root(), std::process::id())),
+        close_starts_bg: false,
     };
     if !env.bin.exists() {
         inconclusive(&format!("{} not built (cargo build --release -p vls)", env.bin.display()));
     }
     std::fs::create_dir_all(&env.cache).expect("cache dir");
+    {
+        // protocol probe: what does this server do on didClose?
+        let scratch = Scratch::new("c07-probe");
+        let root = scratch.join("P");
+        let mut files = BTreeMap::new();
+        files.insert("src/a.veryl".to_string(), "module A {}\n".to_string());
+        write_disk(&root, &crate::hist::toml(false), &files);
+        let r = Ls::spawn(&env.bin, &root, &env.cache)
+            .and_then(|mut ls| ls.probe_close_starts_bg(&uri(&root, "src/a.veryl"), "module A {}\n"));
+        match r {
+            Ok(b) => env.close_starts_bg = b,
+            Err(e) => inconclusive(&format!("protocol probe failed: {e:?}")),
+        }
+        ctx.note("server_starts_background_run_on_didClose", json!(env.close_starts_bg));
+    }
     let thorough = !ctx.is_quick();
 
     // explicit histories: reproducers of listed findings, --replay of a recorded history
@@ -451,10 +641,14 @@ pub fn run(ctx: &Ctx) {
         outcome_of(ctx, &h, v)
     });
 
-    let n = ctx.scale(32, 800);
+    let n = std::env::var("C07_CASES")
+        .ok()
+        .and_then(|x| x.parse().ok())
+        .unwrap_or(ctx.scale(32, 800));
+    let shrink = if std::env::var("C07_NOSHRINK").is_ok() { 0 } else { 150 };
     ctx.run(
         "generated",
-        CaseCfg::cases(n).choices(1500).timeout_s(900).shrink_iters(150),
+        CaseCfg::cases(n).choices(1500).timeout_s(900).shrink_iters(shrink),
         |d: &mut Draw| {
             let h = generate(d, thorough);
             if h.checks.is_empty() {
